@@ -12,7 +12,7 @@ ID = 'C19'
 LEVEL = 'exploration'
 RULE = ('Engine A: frames with G in {2,3,4,5,6} geos (>= 4 needed for the noisy-geo screen) x 3 | 5 trends x planted noisy geo in '
         '{none, each position} x planted outlier date in {none, three positions} x default / custom column names and group labels; '
-        'each frame is fitted in 3 row orders. Oracle (consistency, not prediction): get_data() == input rows minus every row of '
+        'each frame is fitted in 3 row orders and once with repeated (non-unique) row index labels. Oracle (consistency, not prediction): get_data() == input rows minus every row of '
         'the reported noisy geos and of the reported outlier dates (as multisets of rows); get_analysis_data() == per-date control '
         '/ treatment totals of that; the caller\'s frame is unchanged; reported results identical for all row orders. '
         'Non-trivial = something was reported and removed; distinct = distinct case.')
@@ -73,7 +73,7 @@ def run_case(case):
 
     def add(key, msg):
         viol.append({'key': 'C19:' + key, 'msg': msg})
-    for order in ('sorted', 'reversed', 'mixed'):
+    for order in ('sorted', 'reversed', 'mixed', 'repeated-index-labels'):
         if order == 'sorted':
             d0 = df
         elif order == 'reversed':
@@ -81,6 +81,10 @@ def run_case(case):
         else:
             d0 = pd.concat([df.iloc[1::2], df.iloc[0::2]])
         d0 = d0.reset_index(drop=True)
+        if order == 'repeated-index-labels':
+            # like pd.concat of per-group pieces without ignore_index, or a frame indexed by something non-unique:
+            # the row labels repeat across geos (only the COLUMNS are documented input)
+            d0.index = [i % 7 for i in range(len(d0))]
         before = d0.copy(deep=True)
         t = tbrdiagnostics.TBRDiagnostics()
         try:
